@@ -740,6 +740,62 @@ def _exhaustive_worker(job):
     return lines, col.oracle_failures, col.oracle_evals, col.dist
 
 
+def substream_case(rng):
+    """mpu_write over a LIST of bags, every sub-stream drawn from a size class of its own: tiny (less than one
+    minimum part in total), small, spilling (several parts' worth), mixed; short / long / no header"""
+    min_write = rng.choice([4, 10])
+    nsub = rng.choice([2, 2, 3, 4])
+    subs = []
+    for _ in range(nsub):
+        kind = rng.choice(["tiny", "tiny", "small", "spilling", "spilling", "mixed"])
+        if kind == "tiny":
+            sub = [[rng.randint(1, max(1, min_write - 1))]]
+        elif kind == "small":
+            sub = [[rng.choice([1, 3, min_write])] for _ in range(rng.randint(1, 2))]
+        elif kind == "spilling":
+            sub = [[rng.choice([2 * min_write, 3 * min_write + 1, 4 * min_write]) for _ in range(rng.choice([1, 2]))]
+                   for _ in range(rng.randint(1, 3))]
+        else:
+            sub = [[rng.choice([0, 1, 3, min_write, 2 * min_write + 5, rng.randint(0, 40)]) for _ in range(rng.choice([1, 2, 3]))]
+                   for _ in range(rng.randint(1, 4))]
+        subs.append(sub)
+    wpc = rng.choice([1, 2, 3])
+    mp = rng.choice([0, 1, 3])
+    total = sum(len(x) for x in subs)
+    cfg = (True, min_write, mp, mp + total * wpc + rng.choice([0, 50]), rng.choice([1, min_write, 2 * min_write + 1, 25]), wpc,
+           rng.choice([None, None, 0, 3, 16]), rng.choice([None, None, 5]))
+    return cfg, subs
+
+
+def searcher(R: Run, mismatches):
+    """proof or correspondence broke and no oracle failed in the main run: look harder for an input on which the
+    STATEMENT fails on the real code - sub-stream size classes through the real mpu_write graph, then random direct
+    drive over the size classes of the main run with more cases."""
+    import random
+    rng = random.Random(R.seed * 7919 + 13)
+    col = _Collector()
+    for _ in range(1500):
+        cfg, subs = substream_case(rng)
+        case, out, info = real_dask(R, cfg, subs, 2, "sync", True, gen_parts=rng.random() < 0.2, tkind=rng.choice([0, 1]))
+        oracle(col, case, out, info, "searcher:dask:mpu_write")
+        if col.oracle_failures:
+            return col.oracle_failures[0]
+    for _ in range(40000):
+        min_write = rng.choice([1, 4, 10])
+        leaves = [[rng.choice([0, 1, min_write // 2, min_write, min_write + 1, 2 * min_write + 3, 5 * min_write + 1])
+                   for _ in range(rng.choice([1, 1, 2, 3]))] for _ in range(rng.randint(1, 6))]
+        wpc = rng.choice([1, 1, 2, 3])
+        mp = rng.choice([0, 1, 2, 7])
+        c = Case(True, min_write, mp, mp + len(leaves) * wpc + 5, rng.choice([0, 1, min_write, 2 * min_write + 1, 40]), wpc,
+                 rng.choice([None, 0, 1, min_write, 3 * min_write + 2]), rng.choice([None, None, 0, 1, min_write + 3]),
+                 random_tree(rng, leaves))
+        o, info = real_direct(c, tkind=rng.choice([0, 0, 1]))
+        oracle(col, c, o, info, "searcher:direct")
+        if col.oracle_failures:
+            return col.oracle_failures[0]
+    return None
+
+
 def sig_of(case: Case, out: str) -> str:
     leaves = tree_leaves(case.tree)
     sizes = [s for l in leaves for s in l]
@@ -754,6 +810,7 @@ def sig_of(case: Case, out: str) -> str:
 
 def run(R: Run):
     rng = R.rng
+    R.searchers.append(searcher)
     # ---------------- corpus: replays of the repaired findings (F7, F8, F9) run first
     corpus = [
         Case(True, 10, 1, 100, 20, 1, None, None, ("n", ("l", [30]), ("l", [30, 30]))),          # F7
@@ -861,6 +918,15 @@ def run(R: Run):
         oracle(R, case, out, info, f"dask:{sched}" + (f":transport={TRANSPORTS[tk]}" if tk else "") + (":writer-with-len" if wk else ""))
         R.count(f"dask-sched:{sched}")
         R.count(f"dask-transport:{TRANSPORTS[tk]}")
+    # ---------------- mpu_write over several bags, each sub-stream from its own size class
+    for i in range(R.pick(80, 800)):
+        cfg, subs = substream_case(rng)
+        sched = ["sync", "sync", "threads", "random"][i % 4]
+        tk = rng.choice([0, 0, 1])
+        case, out, info = real_dask(R, cfg, subs, 2, sched, True, gen_parts=rng.random() < 0.2, tkind=tk)
+        R.corr(case.line(), lambda: out, sig=f"dask|{sched}|mpu_write|substream-classes|subs={len(subs)}")
+        oracle(R, case, out, info, f"dask:{sched}:substream-classes")
+        R.count("dask-substream-classes")
     # ---------------- the real graph under the process-based scheduler (everything pickled, writer state on disk)
     for i in range(R.pick(3, 20)):
         min_write = rng.choice([4, 10])
